@@ -444,7 +444,7 @@ func (g *Gen) genFamily(fam string) (Op, bool) {
 		}
 		switch r.Intn(10) {
 		case 0:
-			if d := g.pickWritable(func(x *tensor.Dense) bool { return !x.IsView() }); d >= 0 && d != a {
+			if d := g.pickWritable(func(x *tensor.Dense) bool { return !x.IsView() && x != t }); d >= 0 && d != a {
 				return Op{Name: "SliceInto", In: []int{a}, R: d, I: g.sliceEnc(t), Out: g.newSlot()}, true
 			}
 		case 1:
